@@ -12,7 +12,7 @@ N_PAIR_OPS = ("n_get", "n_set", "n_action", "n_create", "n_event_report")
 STATUS_POOL = {
     "echo": [0x0000, 0x0122, 0x0210, 0x0211, 0x0212],
     "store": [0x0000, 0xB000, 0xB006, 0xB007, 0xA700, 0xA900, 0xC000, 0x0117, 0x0122, 0x0124],
-    "find": [0xFF00, 0xFF01, 0x0000, 0xFE00, 0xA700, 0xA900, 0xC000, 0xC123, 0x0122],
+    "find": [0xFF00, 0xFF01, 0x0000, 0xFE00, 0xA700, 0xA900, 0xC000, 0xC123, 0x0122, 0xB000, 0xB001, 0x0107, 0x0001],
     "get": [0xFF00, 0x0000, 0xFE00, 0xA701, 0xA702, 0xA900, 0xB000, 0xC000],
     "move": [0xFF00, 0x0000, 0xFE00, 0xA701, 0xA702, 0xA801, 0xA900, 0xB000, 0xC000],
     "n": [0x0000, 0x0110, 0x0112, 0x0117, 0x0119, 0x0211, 0x0213, 0x0107, 0x0116, 0x0001],
@@ -38,6 +38,8 @@ def gen_status_spec(rng, op, prefer_pending=False):
             d["comment"] = "some comment"
         if rng.randrange(3) == 0:
             d["offending"] = True
+        if rng.randrange(6) == 0:
+            d["foreign_msg_id"] = True      # a status dataset that (wrongly) carries command-set identification elements
         return d
     if k < 87:
         return {"t": "ds_nostatus"}
@@ -96,6 +98,8 @@ def mk_status(spec):
             ds.ErrorComment = spec["comment"]
         if spec.get("offending"):
             ds.OffendingElement = [0x00100010]
+        if spec.get("foreign_msg_id"):
+            ds.MessageIDBeingRespondedTo = 4321
         return ds
     if t == "ds_nostatus":
         ds = Dataset()
